@@ -259,7 +259,7 @@ func findDpCase(wide bool) func(c *ev.Case) {
 			for bk := 0; bk < len(breakerNames); bk++ {
 				var st brStat
 				br := mkBreaker(bk, salt, &st)
-				in := append([]item(nil), items...)
+				in, inputIntact := input(c, "fd", items)
 				call := func() string {
 					return fmt.Sprintf("FindDpSolvers(maxValue=%d, values=%s, allowOverOnce=%v, tieBreaker=%s)", maxValue, fmtVals(items), allow, breakerNames[bk])
 				}
@@ -278,6 +278,9 @@ func findDpCase(wide bool) func(c *ev.Case) {
 				}
 				if c.Logging() {
 					c.Logf("  -> %s   [breaker calls %d, replaced %d]", fmtSolvers(dp), st.calls, st.replaced)
+				}
+				if !inputIntact(call) {
+					return
 				}
 				c.Add("fd_calls", 1)
 				if allow {
@@ -360,7 +363,9 @@ func findDpCase(wide bool) func(c *ev.Case) {
 							return
 						}
 						want := tt.floor(q)
-						c.Logf("  Best(%d) -> %s (largest attainable total <= %d is %d)", q, fmtVals(clip(got)), q, want)
+						if c.Logging() {
+							c.Logf("  Best(%d) -> %s (largest attainable total <= %d is %d)", q, fmtVals(clip(got)), q, want)
+						}
 						s, ok := checkSel(c, "fd/best", func() string { return fmt.Sprintf("Best(%d) ; %s", q, ctx()) }, items, got)
 						if !ok {
 							return
@@ -400,7 +405,9 @@ func findDpCase(wide bool) func(c *ev.Case) {
 					if !c.Guard("BestAllowMinOverflow", func() { got = dp.BestAllowMinOverflow(q) }) {
 						return
 					}
-					c.Logf("  BestAllowMinOverflow(%d) -> %s (expected total %d, %s)", q, fmtVals(clip(got)), want, kind)
+					if c.Logging() {
+						c.Logf("  BestAllowMinOverflow(%d) -> %s (expected total %d, %s)", q, fmtVals(clip(got)), want, kind)
+					}
 					s, ok := checkSel(c, "fd/bamo", func() string { return fmt.Sprintf("BestAllowMinOverflow(%d) ; %s", q, ctx()) }, items, got)
 					if !ok {
 						return
